@@ -72,6 +72,67 @@ func (e *Engine) strIntrinsic(fn *ssa.Function, full string, args []Value) (Valu
 			return StrVal{bytes: s.bytes[:len(s.bytes)-len(p.bytes)]}, true
 		}
 		return s, true
+	case "internal/bytealg.CountString", "internal/bytealg.Count":
+		// number of occurrences of one byte: a sum of indicator terms, no forking
+		var bs []*Term
+		if sv, ok := args[0].(StrVal); ok {
+			noAtom(sv)
+			bs = sv.bytes
+		} else {
+			for _, x := range sliceElems(args[0].(SliceVal)) {
+				bs = append(bs, x.(*Term))
+			}
+		}
+		c := args[1].(*Term)
+		n := mkInt(0)
+		for _, b := range bs {
+			n = tArith("+", n, tIte(tEq(b, c), mkInt(1), mkInt(0)))
+		}
+		return n, true
+	case "internal/bytealg.IndexByteString":
+		noAtom(args[0])
+		return mkInt(int64(e.indexFrom(args[0].(StrVal), StrVal{bytes: []*Term{args[1].(*Term)}}, 0))), true
+	case "internal/bytealg.LastIndexByteString", "strings.LastIndexByte":
+		noAtom(args[0])
+		sv := args[0].(StrVal)
+		c := args[1].(*Term)
+		for i := len(sv.bytes) - 1; i >= 0; i-- {
+			if e.decide(tEq(sv.bytes[i], c)) {
+				return mkInt(int64(i)), true
+			}
+		}
+		return mkInt(-1), true
+	case "strings.LastIndex":
+		noAtom(args[0], args[1])
+		sv, sub := args[0].(StrVal), args[1].(StrVal)
+		for i := len(sv.bytes) - len(sub.bytes); i >= 0; i-- {
+			if e.decide(hasPrefixTerm(StrVal{bytes: sv.bytes[i:]}, sub)) {
+				return mkInt(int64(i)), true
+			}
+		}
+		return mkInt(-1), true
+	case "strings.Count":
+		noAtom(args[0], args[1])
+		sv, sub := args[0].(StrVal), args[1].(StrVal)
+		if len(sub.bytes) == 0 {
+			unsupported("strings.Count with an empty separator")
+		}
+		if len(sub.bytes) == 1 {
+			n := mkInt(0)
+			for _, b := range sv.bytes {
+				n = tArith("+", n, tIte(tEq(b, sub.bytes[0]), mkInt(1), mkInt(0)))
+			}
+			return n, true
+		}
+		cnt, start := 0, 0
+		for {
+			i := e.indexFrom(sv, sub, start)
+			if i < 0 {
+				return mkInt(int64(cnt)), true
+			}
+			cnt++
+			start = i + len(sub.bytes)
+		}
 	case "strings.IndexByte":
 		noAtom(args[0])
 		return mkInt(int64(e.indexFrom(args[0].(StrVal), StrVal{bytes: []*Term{args[1].(*Term)}}, 0))), true
